@@ -99,6 +99,7 @@ type AuthSpec struct {
 	TargetInfo                []byte
 	Timestamp                 []byte // 8 bytes
 	ClientChallenge           []byte // 8 bytes
+	FlagsSet, FlagsClear      uint32 // negotiate flags switched on / off relative to the default set
 	Layout                    string // "" = version and MIC present; "noversion" = NEGOTIATE_VERSION clear, version bytes zero; "short" = neither version nor MIC in the header (payload at 64); "nomic" = version but no MIC (payload at 72)
 }
 
@@ -136,6 +137,7 @@ func Authenticate(a AuthSpec) (msg, blob, proof []byte) {
 	if a.Layout == "noversion" || a.Layout == "short" {
 		flags &^= 0x02000000
 	}
+	flags = (flags | a.FlagsSet) &^ a.FlagsClear
 	binary.LittleEndian.PutUint32(b[60:], flags)
 	if a.Layout == "" || a.Layout == "nomic" {
 		b[64], b[65] = 6, 1
